@@ -21,6 +21,7 @@ const W_DISABLED: u64 = 16;
 const W_FAULT: u64 = 32;
 const W_QUEUE_FULL_WAIT: u64 = 64;
 const W_CANCELLED: u64 = 128;
+const W_COLLIDED: u64 = 256;
 
 #[derive(Clone, Debug)]
 struct Req {
@@ -40,6 +41,9 @@ struct Scn {
     /// also issue one request in the opposite direction
     both_sides: bool,
     faults: bool,
+    /// the responder side opens a stream at the same moment, and its generator draws the very id the requester's
+    /// generator drew for the first bind request (a Connect arrives for an id held by a pending bind request)
+    collide: bool,
 }
 
 #[derive(Clone, Copy, Debug, PartialEq, Eq)]
@@ -62,8 +66,8 @@ fn req_pool() -> Vec<Req> {
 
 fn exec(sc: &Scn, render: bool) -> RunOutput {
     // A = requester, B = responder
-    let a = SideCfg { opts: opts(2, 1).bind_buffer_size(if sc.both_sides { 2 } else { 0 }), rng: vec![] };
-    let b = SideCfg { opts: opts(2, 1).bind_buffer_size(sc.buf), rng: vec![] };
+    let a = SideCfg { opts: opts(2, 1).bind_buffer_size(if sc.both_sides { 2 } else { 0 }), rng: if sc.collide { vec![5] } else { vec![] } };
+    let b = SideCfg { opts: opts(2, 1).bind_buffer_size(sc.buf), rng: if sc.collide { vec![5] } else { vec![] } };
     let mut w = World::two(UNBOUNDED_CAP, &a, &b);
     for (i, r) in sc.reqs.iter().enumerate() {
         w.spawn_bind_requester(0, i as u32, r.btype, r.host.clone(), r.port);
@@ -81,6 +85,12 @@ fn exec(sc: &Scn, render: bool) -> RunOutput {
         w.spawn_opener(0, 1, vec![1], 1, EndPlan::Seq(vec![Op::W(3), Op::Shutdown, Op::ReadToEof(4)]));
         w.spawn_dgram_receiver(1, "dgecho.b", usize::MAX, true);
         w.spawn_dgram_sender(0, "dgping.a", vec![dgram(5, b"d", 1, b"x")], 1, true);
+    }
+    if sc.collide {
+        let mut plans = BTreeMap::new();
+        plans.insert(7u8, EndPlan::Seq(vec![Op::ReadToEof(4), Op::W(2), Op::Shutdown]));
+        w.spawn_acceptor(0, 1, plans);
+        w.spawn_opener(1, 7, vec![7], 7, EndPlan::Seq(vec![Op::W(3), Op::Shutdown, Op::ReadToEof(4)]));
     }
     let mut mon = WireMon::new();
     let mut viol: Vec<(String, String)> = Vec::new();
@@ -278,6 +288,19 @@ fn exec(sc: &Scn, render: bool) -> RunOutput {
             push_viol(&mut viol, "traffic.disturbed", "the datagram exchange sharing the connection did not complete".into());
         }
     }
+    if sc.collide && fault.is_none() {
+        // the stream whose first proposal collided with the pending bind request still comes up (on a fresh id) and works
+        let connects: Vec<u32> = mon.frames.iter().filter(|(s, _)| *s == 1).filter_map(|(_, f)| if let RFrame::Connect { id, .. } = f { Some(*id) } else { None }).collect();
+        if connects.first() == Some(&5) && ids.first() == Some(&Some(5)) {
+            wit |= W_COLLIDED;
+        }
+        for dir in 0..2u8 {
+            let d = obs.dirs.get(&(7, dir)).cloned().unwrap_or_default();
+            if !(d.shutdown && d.eof && d.read == d.written && !d.written.is_empty()) {
+                push_viol(&mut viol, "collision.stream-broken", format!("the stream opened by the responder side while the bind request was pending did not complete (dir {dir}: written {} read {} eof={}; Connect ids {connects:x?})", d.written.len(), d.read.len(), d.eof));
+            }
+        }
+    }
     if fault.is_none() {
         for side in 0..2 {
             if w.task_done(side) {
@@ -337,14 +360,15 @@ pub fn run(args: &Args) -> Report {
     let mut cases = Vec::new();
     let mut add = |sc: Scn| {
         let label = format!(
-            "{} request(s) answers={:?} order={:?} bind_buffer={} traffic={} both_sides={} faults={}",
+            "{} request(s) answers={:?} order={:?} bind_buffer={} traffic={} both_sides={} faults={} id_collision_with_peer_open={}",
             sc.reqs.len(),
             sc.answers,
             sc.order,
             sc.buf,
             sc.with_traffic,
             sc.both_sides,
-            sc.faults
+            sc.faults,
+            sc.collide
         );
         cases.push(Case { try_unbounded: false, max_k: u32::MAX, label, exec: Box::new(move |r| exec(&sc, r)) });
     };
@@ -360,15 +384,16 @@ pub fn run(args: &Args) -> Report {
                     if !thorough && n == 3 && buf == 4 && code % 3 != 0 {
                         continue;
                     }
-                    add(Scn { reqs: pool[..n].to_vec(), answers: answers.clone(), order: order.clone(), buf, with_traffic: n == 2 && code % 5 == 0, both_sides: thorough && n == 2 && code % 7 == 0, faults: false });
+                    add(Scn { reqs: pool[..n].to_vec(), answers: answers.clone(), order: order.clone(), buf, with_traffic: n == 2 && code % 5 == 0, both_sides: thorough && n == 2 && code % 7 == 0, faults: false, collide: false });
                 }
             }
             if n <= 2 {
-                add(Scn { reqs: pool[..n].to_vec(), answers: answers.clone(), order: (0..n).collect(), buf: 1, with_traffic: false, both_sides: false, faults: true });
+                add(Scn { reqs: pool[..n].to_vec(), answers: answers.clone(), order: (0..n).collect(), buf: 1, with_traffic: false, both_sides: false, faults: false, collide: true });
+                add(Scn { reqs: pool[..n].to_vec(), answers: answers.clone(), order: (0..n).collect(), buf: 1, with_traffic: false, both_sides: false, faults: true, collide: false });
             }
         }
         // binds disabled on the responder
-        add(Scn { reqs: pool[..n].to_vec(), answers: vec![BindAnswer::Accept; n], order: (0..n).collect(), buf: 0, with_traffic: n == 2, both_sides: false, faults: false });
+        add(Scn { reqs: pool[..n].to_vec(), answers: vec![BindAnswer::Accept; n], order: (0..n).collect(), buf: 0, with_traffic: n == 2, both_sides: false, faults: false, collide: false });
     }
     let plan = Plan {
         ks: if thorough { vec![0, 1, 2, 3, 4, 5] } else { vec![0, 1, 2] },
@@ -376,11 +401,11 @@ pub fn run(args: &Args) -> Report {
         fault: 1,
         total_wall: Duration::from_secs(if thorough { 1500 } else { 50 }),
         max_execs_per_case: 500_000,
-        required_witnesses: W_TRUE | W_FALSE | W_NEVER_PENDING | W_OUT_OF_ORDER | W_DISABLED | W_FAULT | W_QUEUE_FULL_WAIT | W_CANCELLED,
+        required_witnesses: W_TRUE | W_FALSE | W_NEVER_PENDING | W_OUT_OF_ORDER | W_DISABLED | W_FAULT | W_QUEUE_FULL_WAIT | W_CANCELLED | W_COLLIDED,
         adaptive: thorough,
-        witness_names: &[("resolved_true", W_TRUE), ("resolved_false", W_FALSE), ("unanswered_stays_pending", W_NEVER_PENDING), ("answers_out_of_arrival_order", W_OUT_OF_ORDER), ("binds_disabled", W_DISABLED), ("connection_end_injected", W_FAULT), ("more_requests_than_bind_buffer", W_QUEUE_FULL_WAIT), ("request_abandoned_by_requester", W_CANCELLED)],
+        witness_names: &[("resolved_true", W_TRUE), ("resolved_false", W_FALSE), ("unanswered_stays_pending", W_NEVER_PENDING), ("answers_out_of_arrival_order", W_OUT_OF_ORDER), ("binds_disabled", W_DISABLED), ("connection_end_injected", W_FAULT), ("more_requests_than_bind_buffer", W_QUEUE_FULL_WAIT), ("request_abandoned_by_requester", W_CANCELLED), ("peer_open_collides_with_pending_bind_id", W_COLLIDED)],
     };
-    rep.rule = "psim: requester issues 1..3 concurrent request_bind (types 1/3, hosts {1 B, empty, 255 B}, ports {0, 8080, 65535}); the responder application (bind_buffer_size 1 or 4, or binds disabled) collects the requests and answers them following EVERY answer vector over {accept, reject, drop the request, never answer} in (every / selected) permutation order; optional stream + datagram exchange alongside, optional request in the opposite direction, optional connection end (cut both, drop either Multiplexor) or abandonment of the first request by its requester (future dropped) at every point; every schedule <= k deviations. Oracle: each request resolves at most once; true iff the peer application accepted that very flow id; false iff it rejected/dropped it or binds are disabled; unanswered requests stay pending while the connection is up; after a connection end only false/Closed; the peer application is shown exactly type/host/port/id of a Bind frame on the wire and every request; resolved requests leave no slot behind".into();
+    rep.rule = "psim: requester issues 1..3 concurrent request_bind (types 1/3, hosts {1 B, empty, 255 B}, ports {0, 8080, 65535}); the responder application (bind_buffer_size 1 or 4, or binds disabled) collects the requests and answers them following EVERY answer vector over {accept, reject, drop the request, never answer} in (every / selected) permutation order; optional stream + datagram exchange alongside, optional request in the opposite direction, optional stream opened by the responder side whose generator draws the id of the pending first request (Connect on an id held by a bind request: must be rejected, the bind unaffected, the stream must come up on a fresh id), optional connection end (cut both, drop either Multiplexor) or abandonment of the first request by its requester (future dropped) at every point; every schedule <= k deviations. Oracle: each request resolves at most once; true iff the peer application accepted that very flow id; false iff it rejected/dropped it or binds are disabled; unanswered requests stay pending while the connection is up; after a connection end only false/Closed; the peer application is shown exactly type/host/port/id of a Bind frame on the wire and every request; resolved requests leave no slot behind".into();
     rep.assumptions = vec!["flow ids are paired through the Bind frames seen on the wire (reference decoder)".into()];
     run_cases(args, &mut rep, cases, &plan);
     rep
